@@ -66,8 +66,8 @@ def c01(tier, replay):
     run.cov["bfs_chain_events"] = summ.get("bfs_events", 0)
     run.cov["family_chain_events"] = summ.get("family_events", 0)
     R.need(totals, ["gen", "castle", "ep", "promo", "incheck"])
-    R.family_direction_a(run, "C01", ("moveset", "moveset-after"), {"castle": 4, "ep": 40, "promo": 6, "rookcap": 3} if q else {"castle": 1, "ep": 2, "promo": 1, "rookcap": 1},
-                         fams=("castle", "ep", "promo", "rookcap"))
+    R.family_direction_a(run, "C01", ("moveset", "moveset-after"), {"castle": 4, "ep": 40, "ep2": 40, "promo": 6, "rookcap": 3} if q else {"castle": 1, "ep": 2, "ep2": 2, "promo": 1, "rookcap": 1},
+                         fams=("castle", "ep", "ep2", "promo", "rookcap"))
     model_game(run, tier)
     run.cov["rule"] = RULE_TEXT % n_seeds() + "; direction spec->code: TLC-enumerated castling / en-passant / promotion families replayed into the real generator; compared: descriptor set = Chess!Legal both ways, multiplicity"
     return run.finish()
@@ -84,8 +84,8 @@ def c02(tier, replay):
     run.cov["bfs_chain_events"] = summ.get("bfs_events", 0)
     run.cov["family_chain_events"] = summ.get("family_events", 0)
     R.need(totals, ["gen", "castle", "ep", "promo"])
-    R.family_direction_a(run, "C02", ("successor-after", "text-printed"), {"castle": 6, "ep": 60, "promo": 8, "rookcap": 4} if q else {"castle": 1, "ep": 3, "promo": 1, "rookcap": 1},
-                         fams=("castle", "ep", "promo", "rookcap"))
+    R.family_direction_a(run, "C02", ("successor-after", "text-printed"), {"castle": 6, "ep": 60, "ep2": 80, "promo": 8, "rookcap": 4} if q else {"castle": 1, "ep": 3, "ep2": 4, "promo": 1, "rookcap": 1},
+                         fams=("castle", "ep", "ep2", "promo", "rookcap"))
     model_game(run, tier)
     run.cov["rule"] = RULE_TEXT % n_seeds() + ("; direction spec->code: for every special move (castling, en passant, promotion, landing on a corner) of the TLC-enumerated families the engine's successor object and printed text against Chess!Apply / MoveText; compared per successor: placement, side, rights, ep target, king cache = "
                                                "Chess!Apply; descriptor in Legal; the engine's own printed bestmove text = Chess!MoveText")
@@ -205,7 +205,8 @@ def c13(tier, replay):
     n = 160 if tier == "quick" else 1500
     totals, _ = R.rules_trace(run, "C13", ["--playouts", n, "--plies", 40, "--caps-prob", 0.6, "--caps-budget", 16], "capschains")
     R.need(totals, ["gen", "ep", "promo"])
-    R.family_direction_a(run, "C13", ("caps",), {"castle": 8, "ep": 40, "promo": 6} if tier == "quick" else {"castle": 1, "ep": 2, "promo": 1})
+    R.family_direction_a(run, "C13", ("caps",), {"castle": 8, "ep": 40, "ep2": 60, "promo": 6} if tier == "quick" else {"castle": 1, "ep": 2, "ep2": 3, "promo": 1},
+                         fams=("castle", "ep", "ep2", "promo"))
     model_game(run, tier)
     run.cov["rule"] = RULE_TEXT % n_seeds() + ("; at 60% of the visited positions a depth-first walk over capture-only generations (depth <= 6, "
                                                "<= 3 branches per node, as quiescence follows them) is logged; per event: descriptor set = Chess!LegalCaptures, "
